@@ -405,6 +405,9 @@ func c15Explore(c *fw.Ctx, prog string, bound int) {
 	if st.Deadlines > 0 {
 		c.HarnessError("C15 %s: %d executions hit the watchdog", prog, st.Deadlines)
 	}
+	if st.Nondeterministic {
+		c.HarnessError("C15: replaying the default schedule gave a different execution (uncaptured nondeterminism)")
+	}
 	if st.Capped {
 		c.Cap("program %s: exploration stopped early", prog)
 	}
